@@ -270,9 +270,11 @@ def run(chk):
     chk.cov["accepted_and_run"] = nrun
     chk.cov["exhaustive"] = True
     chk.cov["rule"] = ("every switch of SwitchCheck.tla: enum shapes up to MaxEnum variants (payloads void / i32 / u8 / "
-                       "struct, automatic and custom discriminants incl. 0, 200, 255), ?i32, ?^i32, str!i32, each also "
-                       "behind a distinct; arm lists up to MaxArms over own variants and one foreign variant, with / "
-                       "without default, shorthand / fully qualified / mixed")
+                       "struct / ^i32, automatic and custom discriminants incl. 0, 200, 255, counted up to 255 and past it), "
+                       "?i32, ?^i32, str!i32, str!^i32, each also behind a distinct and as the payload of a variant-typed "
+                       "scrutinee; arm lists up to MaxArms over own variants and one foreign variant (for optionals: a type "
+                       "that is nil underneath), with / without default, shorthand / fully qualified / mixed, as a "
+                       "statement and as a value whose first arm leaves the function")
 
 
 def replay(path):
